@@ -72,7 +72,8 @@ def seg_roles(crate):
         R.fn[nm] = util.need_body(crate, "Segtree::<T, M>::%s" % nm)
 
     def calls_item(b, what):
-        return any(t["fn"].get("name") == what and (t["fn"].get("trait") or "").endswith("SegtreeItem") for bb, t in b.calls())
+        # directly, or in a closure it hands to a shared accessor (`self.with_family(i, |node, l, r| node.push(l, r))`)
+        return any(t["fn"].get("name") == what and (t["fn"].get("trait") or "").endswith("SegtreeItem") for x in [b] + list(crate.closures_of(b)) for bb, t in x.calls())
 
     anyb = lambda b: True
     rec = lambda b: util.self_recursive(b)
@@ -96,15 +97,15 @@ def seg_roles(crate):
     # helpers are the non-recursive methods that call SegtreeItem::push / update
     for nm, callee in (("push_at", "push"), ("merge_at", "update")):
         b = R.fn[nm]
-        if util.self_recursive(b) or not any(t["fn"].get("name") == callee and (t["fn"].get("trait") or "").endswith("SegtreeItem") for bb, t in b.calls()):
+        if util.self_recursive(b) or not calls_item(b, callee):
             raise Anchor("%s is expected to be the non-recursive helper calling SegtreeItem::%s" % (nm, callee))
     # every non-public, non-recursive function of the engine module that is not a role (methods of Segtree, free
     # functions, associated functions of private helper types such as an overlap classifier) is inlined
     rolekeys = {b_.key for b_ in R.fn.values()}
     R.helpers = [f_ for f_ in crate.bodies if not f_.is_closure and f_.kind in ("Fn", "AssocFn") and f_.vis != "pub" and f_.key not in rolekeys and not util.self_recursive(f_)
                  and "segtree_items" not in f_.path and not (crate.impl_of(f_) or {}).get("of_trait")]
-    _A[0] = util.analyser(R.helpers, features=("comb",))  # bool::then / Option::map with closures are case splits
-    R.A_with = lambda extra: util.analyser(R.helpers + list(extra), features=("comb",))
+    _A[0] = util.analyser(R.helpers, features=("comb", "fncall"))  # bool::then / Option::map with closures are case splits
+    R.A_with = lambda extra: util.analyser(R.helpers + list(extra), features=("comb", "fncall"))
     return R
 
 
